@@ -41,6 +41,11 @@ CLAIMED = {
     text='Projective measurement is specified over exact Z[w] state vectors (Born marginals in Z[sqrt2], projection onto the outcome). TLC enumerates every n<=5 (6 thorough), every non-empty ascending qubit subset and ten structured state families (basis, product, GHZ, W, graph, zero-probability outcomes, Clifford+T), checking the measurement axioms on the model (probabilities real and summing to the norm, repeated measurement idempotent, projections resolve the state); for each configuration the real measure_quantum_vector is run over seeds until every outcome of the support was seen (remaining outcomes are forced through a Generator subclass) and probabilities, outcome membership, post-measurement state and the repeated measurement are compared with the exact values. Mid-circuit: TLC simulates circuits with measure gates, drawing outcomes from the support of the state at that point; the programs are replayed through real Circuit/MeasureGate objects and the recorded bitstr/probability/final state compared.',
     note='Trusted: TLC/SANY, tolerance 1e-9; forced outcomes bypass only the RNG draw (np_rng.choice), which C10 covers.',
     technique='TLA+ spec of projective measurement over Z[w]; TLC exhaustive enumeration of (n, subset, state family) + simulation of circuits with measurement; replay into the code'),
+ 'C12': dict(
+    cat='model_checking', ref='6/C12',
+    text='Channels are specified from Kraus operators with Gaussian-integer entries in the documented index conventions (Choi (in,out,in,out), super-operator on row-major vec). TLC enumerates instances (dim_in, dim_out in 1..3 incl. non-square, 1..2 terms; 1..4 x 1..4 thorough; plus trace-preserving integer families) and proves on each that the three apply definitions agree on every matrix unit, the Choi<->super reshuffles are mutually inverse, the Choi matrix is Hermitian and trace preservation <=> Tr_out C = I. Every instance is replayed through all conversion and apply routines (numpy and torch where offered); Kraus forms obtained back are judged through the channel they define; the Bloch map through the C16-verified Gell-Mann coordinates; built-in noise channels at rational rates. Contractivity is decided on the classical subdomain (diagonal rational states x relabelling channels, d=4) where trace distance and fidelity are exact rationals: TLC proves monotonicity/symmetry/range on the exact values and get_trace_distance/get_fidelity are compared with them before and after the channel.',
+    note='NOT covered: relative / von Neumann entropy (logarithms), contractivity for genuinely quantum state pairs, fidelity after a non-injective channel only as an inequality. Tolerance 1e-9 / 1e-8.',
+    technique='TLA+ spec of channel representations over Z[i] and of classical contractivity over Q; TLC exhaustive instance enumeration; expected tables replayed into the code'),
  'C14': dict(
     cat='model_checking', ref='6/C14',
     text='Every Cayley table the library constructs (S_n, A_n, D_3..D_12, C_2..C_12, (Z/n)^* n<=24, V4, Q8) is exported and the group axioms are evaluated by TLC over ALL element triples; the group is identified by isomorphism invariants (order, element-order profile, commutativity) computed by TLC from the table and from the reference construction (permutations / presentations) in the spec; the left-regular form is checked to be a faithful homomorphism. Irreducible blocks: sum d^2 = |G|, #irreps = #classes (classes computed by TLC), and for groups whose characters are all rational (decided by TLC from the table) the integer characters must be class functions satisfying row orthogonality in Z. p(N) for N<=60 against the pentagonal recurrence, the Young-diagram list against the enumerated partition set, and the Young lattice is model-checked as a state machine (every standard filling with N<=8 / 10 is a state; branching rule and standardness invariants): get_all_young_tableaux must return exactly the states of each shape, distinct, hook-length many.',
